@@ -31,6 +31,7 @@ ASSUMPTIONS = ['virtual clock: tornado_sleep(0.1) takes exactly 0.1 s, so latene
                'is tolerated (the statement grants one polling step; kill() on a zombie delivers nothing)',
                'before_signal vetoes belong to C14']
 BUDGET = {'quick': 240, 'thorough': 1500}
+CASE_TIMEOUT = 180          # a LIVE history (real daemon, real grace periods) takes 20-60 s of wall clock
 
 SIGS = [15, 2, 3, 10, 1]
 GTS = [0, .1, .25, .3, .7, 1.0, 2.0]
